@@ -10,4 +10,5 @@ INVARIANT ReadNeverFails
 INVARIANT SkipIsAllUnset
 INVARIANT AttrsResolve
 INVARIANT TilingLaw
+INVARIANT LayoutLaw
 CHECK_DEADLOCK FALSE
